@@ -7,7 +7,7 @@ ids="$@"
 [ -z "$ids" ] && ids=$(python3 -c "import json;print(' '.join(c['property_id'] for c in json.load(open('MANIFEST.json'))['checks']))")
 for id in $ids; do
   s=$(date +%s)
-  out=$(timeout 3000 ./check $id --tier thorough -repo "$repo" 2>&1)
+  out=$(timeout 3000 ./check $id --tier thorough -repo "$repo" -verif "$PWD" 2>&1)
   rc=$?
   echo "$id rc=$rc $(( $(date +%s) - s ))s :: $(echo "$out" | tail -n 1 | cut -c1-200)"
   echo "$out" | grep "^VIOLATION\|^  assert\|^INCONCLUSIVE" | head -8 | cut -c1-300
